@@ -62,6 +62,42 @@ def semverOut : Option SemVer → Json
   | none => Json.null
   | some v => Json.arr #[v.major, v.minor, v.patch, v.prerelease, v.build]
 
+/-- A flag / segment with every preprocessed table removed, and whether it carried any. -/
+def stripClause (c : Clause) : Clause := { c with pre := {} }
+def stripFlag (f : Flag) : Flag :=
+  { f with targets := f.targets.map (fun t => { t with pre := none }),
+           contextTargets := f.contextTargets.map (fun t => { t with pre := none }),
+           rules := f.rules.map (fun r => { r with clauses := r.clauses.map stripClause }) }
+def stripSegment (s : Segment) : Segment :=
+  { s with pre := {}, includedContexts := s.includedContexts.map (fun t => { t with pre := none }),
+           excludedContexts := s.excludedContexts.map (fun t => { t with pre := none }),
+           rules := s.rules.map (fun r => { r with clauses := r.clauses.map stripClause }) }
+/-- Lookup tables are sets: in a dumped flag / segment, sort the arrays that hold them. -/
+partial def sortTables : Json → Json
+  | .obj kvs => Json.obj (kvs.foldl (init := {}) fun acc k v =>
+      let v' := sortTables v
+      let v'' := if k == "pm" || k == "incM" || k == "excM" then
+          match v' with
+          | .arr xs =>
+            let sorted := (xs.map fun x => (x.compress, x)).qsort (fun a b => a.1 < b.1)
+            let dedup := sorted.foldl (init := (#[] : Array (String × Json))) fun acc p =>
+              match acc.back? with
+              | some q => if q.1 == p.1 then acc else acc.push p
+              | none => acc.push p
+            Json.arr (dedup.map (·.2))
+          | other => other
+        else v'
+      acc.insert k v'')
+  | .arr xs => Json.arr (xs.map sortTables)
+  | j => j
+
+def clauseHasTables (c : Clause) : Bool := c.pre.values.isSome || c.pre.valuesMap.isSome
+def flagHasTables (f : Flag) : Bool :=
+  f.targets.any (·.pre.isSome) || f.contextTargets.any (·.pre.isSome) || f.rules.any (·.clauses.any clauseHasTables)
+def segmentHasTables (s : Segment) : Bool :=
+  s.pre.includeMap.isSome || s.pre.excludeMap.isSome || s.includedContexts.any (·.pre.isSome) ||
+  s.excludedContexts.any (·.pre.isSome) || s.rules.any (·.clauses.any clauseHasTables)
+
 def handle (j : Json) : Except String Json := do
   let kind ← str j "kind"
   let rxT ← rxTable (fldD j "rx")
@@ -82,11 +118,25 @@ def handle (j : Json) : Except String Json := do
     | [] => pure ()
     let o := evaluate env f
     let goJ := fldD j "go"
+    -- the preprocessed tables the real code built (they travel with the case and the model evaluates
+    -- with them) must be the ones the model's own preprocessing builds from the same data
+    let strippedOK (g : Flag) : Bool :=
+      (sortTables (flagOut (preprocessFlag rx (stripFlag g)))).compress == (sortTables (flagOut g)).compress || !flagHasTables g
+    let segOK (s : Segment) : Bool :=
+      (sortTables (segmentOut (preprocessSegment rx (stripSegment s)))).compress == (sortTables (segmentOut s)).compress || !segmentHasTables s
+    let preOK : Bool := strippedOK f && (env.store.flags.map (·.2)).all strippedOK &&
+      (env.store.segments.map (·.2)).all segOK
     let preds ← if goJ.isNull then pure Json.null else do
       -- a result that cannot even be read (the real code crashed or hung: empty reason) is not well-formed
       match (do let gr ← resultIn (← fld goJ "result"); pure gr : Except String _) with
-      | .ok gr => pure (Json.mkObj [("wellformed", wellFormedB f gr.detail)])
-      | .error _ => pure (Json.mkObj [("wellformed", false)])
+      | .ok gr =>
+        -- results carried by prerequisite events are results of evaluations too
+        let evOK : Bool := (arrD goJ "events").all fun ej =>
+          match resultIn (fldD ej "result") with
+          | .ok er => (env.store.flags.map (·.2)).any fun pf => pf.key == strD ej "prereq" && wellFormedB pf er.detail
+          | .error _ => false
+        pure (Json.mkObj [("wellformed", wellFormedB f gr.detail), ("eventsWellformed", evOK), ("preOK", preOK)])
+      | .error _ => pure (Json.mkObj [("wellformed", false), ("eventsWellformed", false), ("preOK", preOK)])
     return Json.mkObj [("out", obsOut o), ("pred", preds)]
   else if kind == "bucket" then
     let c ← Wire.ctx (← fld j "ctx")
